@@ -12,9 +12,12 @@ Object builders only; the comparison logic lives in checks/c30.py, c38.py, c39.p
 * a mapper case -> a cqlengine model class, a recording connection registered through the public
   register_connection(session=...)                               MapperEnv
 """
+import os
+import re
+import time
 import uuid
 
-from harness import wire
+from harness import tlaval, tlc, wire
 from harness.pyenv import repo_import
 
 KS, TABLE = "ks", "t"
@@ -27,6 +30,33 @@ _WIRE_TYPES = {"int": wire.T_INT, "text": wire.T_VARCHAR, "bigint": wire.T_BIGIN
 _CQL_CLASS = {"int": "Int32Type", "text": "UTF8Type", "bigint": "LongType", "smallint": "ShortType",
               "tinyint": "ByteType", "boolean": "BooleanType", "ascii": "AsciiType", "blob": "BytesType",
               "uuid": "UUIDType"}
+
+
+_STATE_HDR = re.compile(r'^State \d+:\s*$')
+
+
+def enumerate_cases(module, cfg, workdir, **kw):
+    """Like tlc.enumerate_states, but the dumped states are parsed lazily, one at a time (the case spaces of the
+    thorough tiers are a few 10^5 states; holding them all as Python objects is not needed).
+    -> (TLCResult, generator of state dicts); the dump file is removed when the generator is exhausted."""
+    dump = os.path.join(workdir, "cases_%d" % int(time.time() * 1000 % 10**9))
+    res = tlc.check_model(module, cfg, workdir, dump=dump, **kw)
+    path = dump if os.path.exists(dump) else dump + ".dump"
+
+    def gen():
+        buf = []
+        with open(path) as f:
+            for line in f:
+                if _STATE_HDR.match(line):
+                    if buf:
+                        yield tlaval.parse_state("".join(buf))
+                    buf = []
+                elif line.strip():
+                    buf.append(line)
+            if buf:
+                yield tlaval.parse_state("".join(buf))
+        os.unlink(path)
+    return res, gen()
 
 
 def tobytes(seq):
@@ -206,7 +236,15 @@ class RecordingSession(object):
 
     def execute(self, query, parameters=None, timeout=None, **kw):
         self.executed.append((query, parameters))
-        rows = self.rows_for(query, parameters) if self.rows_for else []
+        text = getattr(query, "query_string", str(query))
+        if self.rows_for:
+            rows = self.rows_for(query, parameters)
+        elif text.startswith("SELECT COUNT"):
+            rows = [{"count": 0}]
+        elif " IF " in text:
+            rows = [{"[applied]": True}]
+        else:
+            rows = []
         return FakeResult(rows)
 
     def execute_async(self, *a, **kw):
@@ -231,6 +269,7 @@ class MapperEnv(object):
     CONN = "verif_c38"
 
     def __init__(self, protocol_version=4):
+        repo_import("cassandra.cluster")            # installs the reactor shim cassandra.cluster needs to be importable
         self.connection = repo_import("cassandra.cqlengine.connection")
         self.columns = repo_import("cassandra.cqlengine.columns")
         self.models = repo_import("cassandra.cqlengine.models")
